@@ -14,6 +14,10 @@ def build_obs(tier, tables):
     # symbolic allocation sizes exhausts memory; its copies are checked as leaves under C11)
     obs += parse_step_obs(["CHK_C02"], "c02par", states=range(1, 16), callbacks=True, checks="std", tier=tier, extra_all=("EXACT_ALLOC",))
     obs += parse_step_obs(["CHK_C02"], "c02par", states=[0], callbacks=True, checks="std", tier=tier)
+    # stack: is the recursion into a nested (declared or skipped) section still taken at depth 10^5?
+    from props.parsecommon import _ob, F
+    obs.append(_ob("c02depth", ["CHK_C02"], 5, "SECM", 0, 0, 100000, checks="none"))
+    obs.append(_ob("c02depth", ["CHK_C02", "CHK_C12"], 12, "INT", 1, F["IGNORE"], 100000, checks="none"))
     return obs
 
 
